@@ -38,6 +38,7 @@ func init() {
 	ruleText["R14.1"] = "Symbols[\"importpath/name\"][N] is reflect.ValueOf(p.N) for a func or typed/bool/complex constant, reflect.ValueOf(&p.N).Elem() for a variable, reflect.ValueOf((*p.N)(nil)) for a type, or reflect.ValueOf(constant.MakeFromLiteral(lit, kind, 0)) with lit exactly equal to the untyped constant p.N (or the exact fraction constant.BinaryOp(num, token.QUO, den) for an untyped float constant without finite decimal form); p resolves to importpath; the only other accepted form is a replacement listed in extract.restricted"
 	ruleText["R14.3"] = "for each wrapped package and release: bound names = exported, non-generic, non-constraint package-level objects of the installed library minus objects first declared by GOROOT/api files of later releases"
 	ruleText["R14.4"] = "the table key is importpath + \"/\" + the package's declared name; a key is assigned once per build configuration; the build constraint of a go1_NN_ file selects exactly release NN (go1_21) or >= NN (go1_22)"
+	ruleText["R14.6"] = "every use of a package's Symbols variable is a validated binding statement (Symbols[\"k\"] = map literal, Symbols[\"k\"][\"N\"] = v with constant keys), the self-description reflect.ValueOf(Symbols), or a read of an entry value: no write under computed keys, delete, reassignment or map-typed alias"
 	ruleText["R14.5"] = "wrapper struct: field 0 is IValue interface{}, the other fields are exactly W<M> for each exported method M of the interface (for the file's release), typed identically to M's signature; method M of the wrapper has that signature and its body is a single call W.W<M>(params in order[, last...]) returned iff M has results (the nil guard on String is the one accepted extra statement)"
 }
 
@@ -766,6 +767,9 @@ func (x *c14ctx) validate(hostCfg bool) {
 		}
 		bs, tables := collectBindings(pk, x.prog)
 		pkgShort := shortKey(pk.PkgPath)
+		if hostCfg {
+			x.checkTableWriters(pk)
+		}
 		// The files of package stdlib carry no GOOS/GOARCH constraint (except log/syslog): on a
 		// foreign configuration their obligations are merged with the host's (same key), so that
 		// only facts that differ between platforms appear as new constructs.
@@ -1248,4 +1252,127 @@ func fmtConst(v constant.Value) string {
 		s = s[:70] + "..."
 	}
 	return s
+}
+
+// checkTableWriters (R14.6): the symbol table of a package is written only by the statements
+// the denotation rule validates: Symbols["k"] = map[string]reflect.Value{...} and
+// Symbols["k"]["N"] = v with constant keys. Any other statement that can change the table
+// after the generated tables are installed (a write under computed keys, delete, assignment of
+// the variable itself, a map-typed alias of the table or of one of its entries handed to other
+// code) rebinds names behind the validation: reads of an entry value are not restricted.
+func (x *c14ctx) checkTableWriters(pk *packages.Package) {
+	obj := pk.Types.Scope().Lookup("Symbols")
+	if obj == nil {
+		return
+	}
+	info := pk.TypesInfo
+	isConstStr := func(e ast.Expr) bool {
+		tv, ok := info.Types[e]
+		return ok && tv.Value != nil && tv.Value.Kind() == constant.String
+	}
+	pkgShort := shortKey(pk.PkgPath)
+	uses, bad := 0, 0
+	for _, f := range pk.Syntax {
+		var stack []ast.Node
+		ast.Inspect(f, func(n ast.Node) bool {
+			if n == nil {
+				stack = stack[:len(stack)-1]
+				return true
+			}
+			stack = append(stack, n)
+			id, ok := n.(*ast.Ident)
+			if !ok || info.Uses[id] != obj {
+				return true
+			}
+			uses++
+			// climb the index expressions rooted at the identifier
+			i := len(stack) - 2
+			var cur ast.Node = id
+			constKeys := true
+			depth := 0
+			for i >= 0 {
+				ix, ok := stack[i].(*ast.IndexExpr)
+				if !ok || ix.X != cur {
+					break
+				}
+				if !isConstStr(ix.Index) {
+					constKeys = false
+				}
+				cur = ix
+				depth++
+				i--
+			}
+			why := ""
+			if i >= 0 {
+				switch p := stack[i].(type) {
+				case *ast.AssignStmt:
+					isLHS := false
+					for _, l := range p.Lhs {
+						if l == cur {
+							isLHS = true
+						}
+					}
+					switch {
+					case isLHS && depth == 0:
+						why = "the table variable itself is assigned"
+					case isLHS && !constKeys:
+						why = "an entry is written under a computed key"
+					case isLHS && depth == 1:
+						if _, ok := p.Rhs[0].(*ast.CompositeLit); !ok || len(p.Lhs) != 1 {
+							why = "a package table is installed from something else than a map literal"
+						}
+					case isLHS:
+						// Symbols["k"]["N"] = v: collected and validated by R14.1
+					case depth < 2:
+						why = "a map-typed alias of the table is taken"
+					}
+				case *ast.CallExpr:
+					switch {
+					case depth >= 2:
+					case isPkgCall(info, p, "reflect", "ValueOf") && depth == 0:
+						// self-description entry
+					case isBuiltinCall(info, p, "len"):
+					case isBuiltinCall(info, p, "delete"):
+						why = "entries are deleted"
+					default:
+						why = "the table (or one of its package tables) is handed to " + types.ExprString(p.Fun)
+					}
+				case *ast.BinaryExpr:
+					// comparison with nil
+				case *ast.RangeStmt:
+					if depth < 2 && p.X == cur && p.Value != nil && depth == 0 {
+						why = "the table is ranged over with its package tables (map-typed aliases)"
+					}
+				case *ast.IncDecStmt:
+					why = "an entry is modified"
+				default:
+					if depth < 2 {
+						why = "a map-typed alias of the table is taken"
+					}
+				}
+			}
+			if why != "" {
+				bad++
+				x.fail("R14.6", fmt.Sprintf("%s/table-writers#%d", pkgShort, bad), x.prog.pos(id.Pos()), "the symbol table of package "+pkgShort+" is changed outside the validated binding statements: "+why+" ("+types.ExprString(cur.(ast.Expr))+"): the names rebound there no longer denote their namesakes whatever the generated tables say")
+			}
+			return true
+		})
+	}
+	if bad == 0 && uses > 0 {
+		x.pass("R14.6", pkgShort+"/table-writers", x.prog.pos(obj.Pos()), fmt.Sprintf("%d uses of the table, all validated binding statements or reads", uses))
+	}
+}
+
+func isPkgCall(info *types.Info, c *ast.CallExpr, pkg, name string) bool {
+	f, ok := calleeOf(info, c).(*types.Func)
+	return ok && f.Pkg() != nil && f.Pkg().Path() == pkg && f.Name() == name
+}
+
+func isBuiltinCall(info *types.Info, c *ast.CallExpr, name string) bool {
+	id, ok := unparen(c.Fun).(*ast.Ident)
+	if !ok {
+		return false
+	}
+	b, ok := info.Uses[id].(*types.Builtin)
+	return ok && b.Name() == name
 }
